@@ -203,7 +203,7 @@ theorem drop_trans {a b c : List Nat} {o1 o2 : Nat} (h1 : a.drop o2 = b.drop o2)
     last one, denote a code value inside the final interval. -/
 theorem doneRange_spec (c : Enc) (inv : EncInv c) (hn : c.nbitsTotal < 4294967296)
     (herr : (doneRange c).1.error = 0) :
-    ∃ l0 T : Nat, (doneRange c).2 = -(T : Int) ∧ T ≤ 7 ∧ l0 + ilog c.rng ≤ 33 ∧
+    ∃ l0 T : Nat, (doneRange c).2 = -(T : Int) ∧ T ≤ 7 ∧ (l0 + ilog c.rng ≤ 33 ∧ 32 ≤ l0 + ilog c.rng) ∧
       8 * (doneRange c).1.offs = 8 * encM c + l0 + T ∧
       c.error = 0 ∧ EncWf (doneRange c).1 ∧ c.offs ≤ (doneRange c).1.offs ∧ SameRaw (doneRange c).1 c ∧
       (doneRange c).1.buf.drop (doneRange c).1.offs = c.buf.drop (doneRange c).1.offs ∧
@@ -236,7 +236,7 @@ theorem doneRange_spec (c : Enc) (inv : EncInv c) (hn : c.nbitsTotal < 429496729
     obtain ⟨f0, f1, f2, f3, f4, f5⟩ := doneFlush_spec c wf hext herr
     have sr := sameRaw_flush c
     generalize (if c.rem ≥ 0 ∨ c.ext > 0 then carryOut c 0 else c) = c2 at *
-    refine ⟨0, 0, by simp, by omega, hil, by omega, f0, f3, by omega, sr, by rw [f1]; exact f4,
+    refine ⟨0, 0, by simp, by omega, ⟨hil, hil2⟩, by omega, f0, f3, by omega, sr, by rw [f1]; exact f4,
       by rw [Nat.pow_zero, Nat.mod_one], ?_⟩
     · intro B S hB δ hδ hcv
       rw [f1, f2] at hcv
@@ -265,7 +265,7 @@ theorem doneRange_spec (c : Enc) (inv : EncInv c) (hn : c.nbitsTotal < 429496729
       rcases (show l0 = 1 ∨ l0 = 2 ∨ l0 = 3 ∨ l0 = 4 ∨ l0 = 5 ∨ l0 = 6 ∨ l0 = 7 ∨ l0 = 8 by omega) with
         h | h | h | h | h | h | h | h <;>
         (subst h; simp only [Nat.reduceSub, Nat.reducePow] at hmod ⊢; omega)
-    refine ⟨l0, 8 - l0, by omega, by omega, hil, by rw [f1, s3]; omega, s0, f3, by omega, sr, hdrop,
+    refine ⟨l0, 8 - l0, by omega, by omega, ⟨hil, hil2⟩, by rw [f1, s3]; omega, s0, f3, by omega, sr, hdrop,
       by rw [f1, f2]; exact hmodT.1, ?_⟩
     intro B S hB δ hδ hcv
     rw [f1, f2] at hcv
@@ -312,7 +312,7 @@ theorem doneRange_spec (c : Enc) (inv : EncInv c) (hn : c.nbitsTotal < 429496729
       generalize digitsVal c1 = D1 at *
       generalize digitsVal c1' = D2 at *
       omega
-    refine ⟨9, 7, by omega, by omega, hil, by rw [f1, t3, s3]; omega, s0, f3, by omega, sr, hdrop,
+    refine ⟨9, 7, by omega, by omega, ⟨hil, hil2⟩, by rw [f1, t3, s3]; omega, s0, f3, by omega, sr, hdrop,
       by rw [f1, f2]; exact hmodT.1, ?_⟩
     intro B S hB δ hδ hcv
     rw [f1, f2] at hcv
@@ -608,5 +608,24 @@ theorem encDone_spec (c : Enc) (inv : EncInv c) (ri : RawInv c) (hb : BytesOk c.
       rw [if_pos (by omega), if_pos (by omega)]
       exact getD_of_drop_eq hdrop _ (by omega)
     rw [← e1, ← e2]; exact d5
+
+/-- A successful `ec_enc_done` has written at least as many bytes as there are digits, and at
+    least one byte unless the interval is still the whole code space. -/
+theorem encDone_storage_pos (c : Enc) (inv : EncInv c) (hn : c.nbitsTotal < 4294967296)
+    (herr : (encDone c).error = 0) (h : 1 ≤ encM c ∨ c.rng < 2147483648) : 0 < c.storage := by
+  rw [encDone_eq'] at herr
+  have herr2 : (doneRange c).1.error = 0 := by
+    apply Classical.byContradiction; intro hne
+    exact doneRaw_error_mono _ _ hne herr
+  obtain ⟨l0, T, _, _, hil, hbits, _, wf2, _, sr, _, _, _⟩ := doneRange_spec c inv hn herr2
+  have h1 := wf2.offs_le
+  rw [sr.1] at h1
+  have hl : 1 ≤ encM c ∨ 1 ≤ l0 := by
+    rcases h with h | h
+    · exact Or.inl h
+    · right
+      have : ilog c.rng ≤ 31 := by rw [ilog_lt_iff]; exact h
+      omega
+  omega
 
 end Opus.RangeCoder
